@@ -621,8 +621,56 @@ func c18ProbeDNS(c *ctx) {
 	}
 }
 
+// c18ProbeUserNameChange: the factory's configuration reaches the object registered as SetUserName - with EnableUserNameChange a DNS
+// address replaces an existing name, without it the replacement is refused and a first name is still accepted (both configurations,
+// empty and non-empty DNS maps: the function has no activation epoch and is active in every one of them)
+func c18ProbeUserNameChange(c *ctx) {
+	dnsAddr := bytes.Repeat([]byte{0xD1}, 32)
+	for _, enable := range []bool{false, true} {
+		for _, withDNS := range []bool{true, false} {
+			dns := map[string]struct{}{}
+			if withDNS {
+				dns[string(dnsAddr)] = struct{}{}
+			}
+			cfg := fmt.Sprintf("userNameChange=%v/dns=%d", enable, len(dns))
+			bad := func(what string) {
+				c18Fail(c, "monitor", "registry-behaviour/SetUserName", cfg+": "+what, map[string]string{"config": cfg, "probe": what})
+			}
+			w, err := c18Build(c18GasMap(10), dns, enable, 0, false)
+			if err != nil {
+				c18Fail(c, "monitor", "factory-error", err.Error(), nil)
+				continue
+			}
+			c.note("probe/username/"+cfg, true)
+			f, err := w.container.Get("SetUserName")
+			if err != nil {
+				bad("Get(SetUserName): " + err.Error())
+				continue
+			}
+			if !f.IsActive() {
+				bad("SetUserName is not active (it has no activation epoch)")
+			}
+			if !withDNS {
+				continue
+			}
+			acc := c18NewAccount(bytes.Repeat([]byte{0x13}, 32))
+			if _, err := f.ProcessBuiltinFunction(nil, acc, c18Call(dnsAddr, acc.addr, []byte("first.elrond"))); err != nil || string(acc.GetUserName()) != "first.elrond" {
+				bad(fmt.Sprintf("a first user name set by the DNS address must be accepted (err %v, name %q)", err, acc.GetUserName()))
+			}
+			_, err = f.ProcessBuiltinFunction(nil, acc, c18Call(dnsAddr, acc.addr, []byte("second.elrond")))
+			switch {
+			case enable && (err != nil || string(acc.GetUserName()) != "second.elrond"):
+				bad(fmt.Sprintf("with user-name change enabled the DNS address must be able to replace the name (err %v, name %q)", err, acc.GetUserName()))
+			case !enable && (err == nil || string(acc.GetUserName()) != "first.elrond"):
+				bad(fmt.Sprintf("with user-name change disabled a second name must be refused (err %v, name %q)", err, acc.GetUserName()))
+			}
+		}
+	}
+}
+
 func c18Probes(c *ctx) {
 	c18ProbeDNS(c)
+	c18ProbeUserNameChange(c)
 	w, err := c18Build(c18GasMap(10), map[string]struct{}{}, false, 0, false)
 	if err != nil {
 		c18Fail(c, "monitor", "factory-error", err.Error(), nil)
